@@ -708,8 +708,9 @@ class World:
         try:
             mtx, _ = tm.parse_tx(self.tx.serialize(), strict=False)
             expect, _why = stdverify.verify_input(mtx, idx, self.spent())
+            auth, _why2 = stdverify.verify_input(mtx, idx, self.spent(), authorisation_only=True)
         except Exception:
-            expect = False
+            expect = auth = False
         book = (now is not None and now == sg["digest"] and inp.spk == sg["spk"] and not sg["tampered"] and inp.annex == sg["annex"])
         if book and not expect:
             fail("C06", "H3", f"reference_and_bookkeeping_disagree_{inp.kind}", "harness: the signed state is unchanged per the bookkeeping but the reference finds the spend not authorised")
@@ -723,7 +724,9 @@ class World:
         v = verdicts[0]
         if expect and not v:
             fail("C06", "H3", f"valid_reported_invalid_{inp.kind}" + ("_annex" if inp.annex is not None else ""), f"input {idx} ({inp.kind}) carries its signature and the committed data equal the signed data, yet verify_input is False (after {self.edits} edits)")
-        if v and not expect:
+        if v and auth and not expect:
+            tr.probe("accepted_authorised_but_consensus_invalid_tapscript_junk_sig")
+        if v and not auth:
             why = "committed data changed after signing" if now != sg["digest"] else "spent script / signature element changed"
             fail("C06", "H3", f"invalid_reported_valid_{inp.kind}" + (f"_m{inp.m}" if "ms" in inp.kind else ""), f"verify_input({idx}) is True for {inp.kind} although {why} (after {self.edits} edits; signed digest {sg['digest'].hex()}, current {now.hex() if now else None})")
         # cross-check on a re-parsed copy: the verdict is a function of the serialised state + spent outputs only
@@ -886,13 +889,16 @@ class World:
             lib = False
             lib_note = type(e).__name__
         ref, why = stdverify.verify_input(mtx, idx, self.spent())
+        auth, _ = stdverify.verify_input(mtx, idx, self.spent(), authorisation_only=True)
         tr.oracle("T1")
         tr.probe("transmissions")
         tr.probe(f"transmit_lib{int(lib)}_ref{int(ref)}")
         tr.ev("net", "transmit", f"{idx}|{inp.kind}|{label}|lib={lib}{('/' + lib_note) if lib_note else ''}|ref={ref}")
         tr.state("tx", inp.kind, label, lib, ref)
         owner = "C05" if self.prop == "C05" else "C06"  # in C05 runs the re-labelled hash type is a digest question
-        if lib and not ref:
+        if lib and auth and not ref:
+            tr.probe("accepted_authorised_but_consensus_invalid_tapscript_junk_sig")
+        if lib and not auth:
             fail(owner, "T1", f"accepted_unauthorised_{label}_{inp.kind}", f"receiver's verify_input({idx}) is True for a {inp.kind} spend after in-flight change '{label}', but the reference finds it not authorised ({why})")
         if not mut and ref and not lib:
             fail(owner, "T2", f"authorised_rejected_{inp.kind}", f"untampered {inp.kind} spend is authorised per the reference but the receiver's verify_input({idx}) is False {lib_note}")
